@@ -8,7 +8,7 @@ pub proof fn lemma_wf_facts(c: CState)
         c.exists ==> !stored(c, nil_id()),
         // the latest version has no child; an empty chain has no child links at all
         c.exists ==> !c.children.dom().contains(c.latest) || c.latest == nil_id(),
-        c.exists && c.latest == nil_id() ==> c.children =~= Map::empty() && c.versions =~= Map::empty(),
+        c.exists && c.latest == nil_id() ==> c.children =~= IMap::empty() && c.versions =~= IMap::empty(),
         c.exists ==> (c.snapshot is Some <==> c.snapshot_data is Some),
 {
     if c.exists {
@@ -22,7 +22,7 @@ pub proof fn lemma_chain_n_facts(c: CState, n: nat)
     ensures
         !stored(c, nil_id()),
         !c.children.dom().contains(c.latest) || c.latest == nil_id(),
-        c.latest == nil_id() ==> c.children =~= Map::empty() && c.versions =~= Map::empty(),
+        c.latest == nil_id() ==> c.children =~= IMap::empty() && c.versions =~= IMap::empty(),
 {
     if stored(c, nil_id()) {
         let k = choose|k: nat| k < n && back(c, k) == nil_id();
@@ -106,8 +106,8 @@ pub proof fn lemma_add_version_chain_n(c: CState, v: Uuid, p: Uuid, seg: Seq<u8>
     assert(back(d, 0) == v);
     assert(stored(d, v));
     if n == 0 {
-        assert(c.versions =~= Map::empty());
-        assert(c.children =~= Map::empty());
+        assert(c.versions =~= IMap::empty());
+        assert(c.children =~= IMap::empty());
         assert(back(d, 1) == d.versions[back(d, 0)].parent_version_id);
         assert(back(d, 1) == p);
         assert forall|k: nat| k < 1 implies #[trigger] stored(d, back(d, k)) && back(d, k) != nil_id()
